@@ -96,6 +96,11 @@ class RootWalker(Walker):
                 self.seen_tags.add(tag)
                 return ([s.with_event(("assume:" + tag, "true")) for s in states],
                         [s.with_event(("assume:" + tag, "false")) for s in states])
+            if c == "!" + text or "!" + c == text or (c.startswith("!(") and _strip_parens(c[1:]) == text):
+                # the same test spelled the other way round (`if (!x) return; …` for `if (x) { … }`): the branches swap
+                self.seen_tags.add(tag)
+                return ([s.with_event(("assume:" + tag, "false")) for s in states],
+                        [s.with_event(("assume:" + tag, "true")) for s in states])
         return list(states), list(states)
 
 
